@@ -232,6 +232,7 @@ pub fn run(e: &'static Engine) {
          half-row r+2 columns 1..=size reproduce matrix row r with light modules in columns 0 and size+1, half-row size+2 is the \
          all-light bottom border. Non-trivial: every case (size dimension exhaustive); distinct by case hash.",
     );
+    e.extend_rule("environment phases with locale variables (phase stored in the replay); part print_entry_point (QRCode::print in a child process under one of the phases' environments); edit 1..5 modules (data field / qr[r][c]) and render the same object and a clone again; predecessor renders on the thread (failing / other symbol); extreme textures.");
     e.assume("half-row 0 (the upper half of the first text line) lies outside the one-module border and is not constrained");
     crate::engine::run_regress(e, &|c, o| replay(e, c, o));
     let per: u32 = e.tier.pick(2, 12);
